@@ -89,7 +89,7 @@ def run_case(spec, ctx):
     r = E.execute(spec)
     try:
         runs = [r]
-        if spec.get("late_impls"):
+        if E.has_second_phase(spec):
             runs.append(E.second_phase(r))
             ctx.count("second_evaluations_after_late_registration")
         for n_, rr in enumerate(runs):
